@@ -429,4 +429,18 @@ theorem frAll_readInto {s : Store} (h : FrAll s) (l : Nat) (pre : List String) (
   simp only [readInto]
   exact frAll_setTrees (frAll_readTrees _ docs (frAll_requireList _ _ pre h).1) _ _
 
+theorem frAll_chain : ∀ (gs : List Mig) {s : Store} (memo : Memo), FrAll s → MV s memo → FrAll (chain s memo gs).1
+  | [], _, _, h, _ => h
+  | g :: gs, s, memo, h, hm => by
+    simp only [chain]
+    split
+    · obtain ⟨a, _, c⟩ := frAll_migrateTree h g.obj g.ns g.unify memo hm
+      exact frAll_chain gs _ a c
+    · obtain ⟨a, _, c⟩ := frAll_migrateTl h g.obj g.ns g.unify memo hm
+      exact frAll_chain gs _ a c
+    · obtain ⟨a, _, c⟩ := frAll_migrateMat h g.obj g.ns g.unify memo hm
+      split
+      · exact frAll_chain gs _ a c
+      · exact a
+
 end DendroModel.C11.Fresh
